@@ -107,6 +107,7 @@ pub struct PanicInfo {
 
 thread_local! {
     static LAST_PANIC: RefCell<Option<PanicInfo>> = RefCell::new(None);
+    static CATCH_DEPTH: std::cell::Cell<u32> = std::cell::Cell::new(0);
 }
 
 fn repo_frame(bt: &str) -> String {
@@ -153,6 +154,10 @@ pub fn install_panic_hook() {
         if std::env::var("VH_DEBUG_BT").is_ok() {
             eprintln!("{}", bt);
         }
+        if CATCH_DEPTH.with(|d| d.get()) == 0 {
+            // a panic of the harness itself (not of code under test inside catch()): make it visible
+            eprintln!("harness panic: {} at {}:{} [{}]", msg, file, line, func);
+        }
         LAST_PANIC.with(|p| *p.borrow_mut() = Some(PanicInfo { msg, file, line, func }));
     }));
 }
@@ -160,7 +165,10 @@ pub fn install_panic_hook() {
 /// Run `f`, turning a panic into Err with its site.
 pub fn catch<T>(f: impl FnOnce() -> T) -> Result<T, PanicInfo> {
     LAST_PANIC.with(|p| *p.borrow_mut() = None);
-    match panic::catch_unwind(AssertUnwindSafe(f)) {
+    CATCH_DEPTH.with(|d| d.set(d.get() + 1));
+    let r = panic::catch_unwind(AssertUnwindSafe(f));
+    CATCH_DEPTH.with(|d| d.set(d.get() - 1));
+    match r {
         Ok(v) => Ok(v),
         Err(_) => Err(LAST_PANIC.with(|p| p.borrow_mut().take()).unwrap_or(PanicInfo {
             msg: "<unknown>".into(),
